@@ -458,4 +458,5 @@ RULES = [
 	('05.i', 'channel_reestablish releases the last revoke_and_ack only when no monitor update is in progress', r05i),
 	('05.p', 'same-name field transfer: structs carrying this property\'s quantities are filled from the same-named field or a reviewed alias (rules/provenance.py)', lambda F: provenance.for_property(F, 'C05', '05.p')),
 	('05.q', 'no call hands a value named like one parameter of the callee to a different parameter (swapped type-compatible arguments; rules/provenance.py)', lambda F: provenance.swaps_for_property(F, 'C05', '05.q')),
+	('05.z', 'named protocol / policy constants in this property\'s files have their reviewed values (rules/provenance.py)', lambda F: provenance.consts_for_property(F, 'C05', '05.z')),
 ]
